@@ -497,7 +497,7 @@ def wrongSSRC (r : RecvFmt) (ssrc : Nat) : Bool :=
 
 /-- `readPacketRTP` of `clientFormat` / `serverSessionFormat` with `decodeRTP`.  The remote SSRC is
 stored only after the packet has been decoded (and authenticated when a context is present): since
-the repair 568f759; before it the SSRC of the very first packet was stored unconditionally, so one
+the repair c215d27; before it the SSRC of the very first packet was stored unconditionally, so one
 altered first packet made the receiver discard every genuine packet that followed. -/
 def readRTP {W WC} (ci : Cipher W WC) (r : RecvFmt) (f : Frame W) : RecvFmt × ReadRes :=
   if wrongSSRC r f.ssrc then (r, .decodeError)
